@@ -120,6 +120,8 @@ RECURSIVE IsPath(_)
 IsPath(t) == t[1] = "Id" \/ (t[1] = "Sel" /\ IsPath(t[2]))
 
 \* ---------------------------------------------------------------- evaluation
+RECURSIVE HoldsMap(_, _)
+HoldsMap(v, m) == v = <<"map", m>> \/ (v[1] = "arr" /\ \E i \in 1..Len(v[2]) : HoldsMap(v[2][i], m))
 RECURSIVE Eval(_, _), EvalList(_, _, _, _)
 
 \* left to right; stops at the first error / unspecified element
@@ -174,6 +176,9 @@ Eval(t, st) ==
          IF t[3][1] = "Id" /\ IsLocalName(t[3][2]) THEN
             LET r == Eval(t[4], st) IN
             IF r[1] # "ok" THEN r
+            \* the values of this specification are trees; a local bound to the data map itself (or to an array holding it)
+            \* makes the map reachable from itself, which a tree cannot say: nothing is pinned from there on (totality only)
+            ELSE IF HoldsMap(r[2], r[3].this) THEN Unspec
             ELSE EOk(r[2], [r[3] EXCEPT !.this = Bind(r[3].this, t[3][2], r[2])])
          ELSE \* invalid target: an error; whether the right-hand side runs is not pinned
             LET r == Eval(t[4], st) IN
